@@ -46,6 +46,10 @@ pub struct RecState {
     pub width_override: Option<u16>,
     /// kind of the injected error (`Other` unless set)
     pub fail_kind: Option<io::ErrorKind>,
+    /// a terminal that takes the bytes but reports an error when flushed: 1 = every flush, 2 = every second one
+    pub fail_flush: u8,
+    /// flush calls made, failed ones included (a frame is complete when `flush` is called)
+    pub flush_attempts: usize,
 }
 
 /// Recording (and optionally failing) terminal around a `vt100::Parser` with scrollback.
@@ -63,6 +67,7 @@ impl Recorder {
         let mut st = self.st.lock().unwrap();
         let k = st.calls;
         st.calls += 1;
+        if let Op::Flush = op { st.flush_attempts += 1; if st.fail_flush == 1 || (st.fail_flush == 2 && st.flush_attempts % 2 == 0) { st.failed += 1; st.ops.push(op); let kind = st.fail_kind.unwrap_or(io::ErrorKind::Other); return Err(io::Error::new(kind, "injected")); } }
         if let Some(f) = st.fail_at { if k == f || (st.sticky && k > f) { st.failed += 1; let kind = st.fail_kind.unwrap_or(io::ErrorKind::Other); return Err(io::Error::new(kind, "injected")); } }
         if let Op::Flush = op {
             st.flushes += 1;
@@ -81,6 +86,10 @@ impl Recorder {
     pub fn failed(&self) -> usize { self.st.lock().unwrap().failed }
     pub fn set_fault_kind(&self, kind: io::ErrorKind) { self.st.lock().unwrap().fail_kind = Some(kind); }
     pub fn set_fault(&self, k: usize, sticky: bool) { let mut st = self.st.lock().unwrap(); st.fail_at = Some(k); st.sticky = sticky; }
+    /// the terminal works again
+    pub fn clear_fault(&self) { let mut st = self.st.lock().unwrap(); st.fail_at = None; st.sticky = false; }
+    pub fn set_flush_fault(&self, mode: u8) { self.st.lock().unwrap().fail_flush = mode; }
+    pub fn flush_attempts(&self) -> usize { self.st.lock().unwrap().flush_attempts }
     pub fn flushes(&self) -> usize { self.st.lock().unwrap().flushes }
     pub fn calls(&self) -> usize { self.st.lock().unwrap().calls }
     /// (row, col) of the emulated cursor; col == width means the pending-wrap column
